@@ -19,6 +19,7 @@ EXPLANATION = (
     "the operators reach Lua unchanged (C01 PIPE: + -> __ADD, others -> the Lua operator)."
     ' (ARITH __add via __ADD) tuple `+` combines elements with the scalar dispatcher because the checker admits str + str on elements; (CHECKER-AGREES neg) unary minus on tuples is admitted and implemented.'
     ' (function-of-its-operands) __eq/__lt/__le read only their two operands and write nothing: no verdict depends on earlier comparisons.'
+    ' (PIPE lowering/emission - shared with C01) the operator written is the one the runtime applies to the evaluated operands: no arm of the lowering computes an operator itself for some operands.'
 )
 UNDECIDED = "the laws over all run-time values (NaN, functions inside composites), and metamethod dispatch rules of the target Lua version."
 
